@@ -20,12 +20,6 @@ From AL Require Import Base BaseFacts EventFacts.
 From AL.Sched Require Import EvOwn.
 From AL.Sched Require RwReadEvSched RwWriteEvSched RwReadEvInv RwWriteEvInv MutexEvSched MutexEvInv RwComp.
 From Coq Require Import Lia.
-Module R := RwReadEvSched.
-Module W := RwWriteEvSched.
-Module M := MutexEvSched.
-Module RI := RwReadEvInv.
-Module WI := RwWriteEvInv.
-Module MI := MutexEvInv.
 Import RwComp(enter_ok, wpc, read_succeeds, R_wb_step, W_bits, wspec, wbit).
 Open Scope N_scope.
 Open Scope list_scope.
@@ -41,88 +35,89 @@ Inductive xact :=
 (* upgradable readers *)
 | XUpDone | XUpgrade (j : nat) | XUpUnlock | XUpDowngrade
 (* the try_ family *)
-| XTryWrite (j : nat) | XTryUp | XTryFail.
+| XTryWrite (j : nat) | XTryUp | XTryFail | XTryRead.
 
 Record xst := mkX {
-  kR : R.gst; kW : W.gst; kM : M.gst;
-  sR : list R.act; sW : list W.act; sM : list M.act;
+  kR : RwReadEvSched.gst; kW : RwWriteEvSched.gst; kM : MutexEvSched.gst;
+  sR : list RwReadEvSched.act; sW : list RwWriteEvSched.act; sM : list MutexEvSched.act;
   k_rd : N; k_up : N; k_owe : N; k_hold : N }.
 
 (* the translation: component actions and the new counters *)
-Record xtr := mkT { tR : list R.act; tW : list W.act; tM : list M.act; n_rd : N; n_up : N; n_owe : N; n_hold : N }.
+Record xtr := mkT { tR : list RwReadEvSched.act; tW : list RwWriteEvSched.act; tM : list MutexEvSched.act; n_rd : N; n_up : N; n_owe : N; n_hold : N }.
 Definition same (s : xst) : xtr := mkT [] [] [] (k_rd s) (k_up s) (k_owe s) (k_hold s).
 
-Definition m_own (s : xst) (a : M.act) : xtr :=
+Definition m_own (s : xst) (a : MutexEvSched.act) : xtr :=
   (* an action of a lock future: if it acquires the mutex, one more future holds it *)
-  mkT [] [] [a] (k_rd s) (k_up s) (k_owe s) (k_hold s + (M.g_guards (M.step true (kM s) a) - M.g_guards (kM s))).
+  mkT [] [] [a] (k_rd s) (k_up s) (k_owe s) (k_hold s + (MutexEvSched.g_guards (MutexEvSched.step true (kM s) a) - MutexEvSched.g_guards (kM s))).
 
 Definition tr (s : xst) (a : xact) : xtr :=
   match a with
-  | XMPoll i => m_own s (M.APoll i)
-  | XMStep i c => m_own s (M.AStep i c)
-  | XMCancel i => m_own s (M.ACancel i)
-  | XMPend => m_own s M.APend
-  | XRelease => if 0 <? k_owe s then mkT [] [] [M.ARelease] (k_rd s) (k_up s) (k_owe s - 1) (k_hold s) else same s
-  | XRPoll i lw0 => mkT [R.APoll i lw0] [] [] (k_rd s) (k_up s) (k_owe s) (k_hold s)
+  | XMPoll i => m_own s (MutexEvSched.APoll i)
+  | XMStep i c => m_own s (MutexEvSched.AStep i c)
+  | XMCancel i => m_own s (MutexEvSched.ACancel i)
+  | XMPend => m_own s MutexEvSched.APend
+  | XRelease => if 0 <? k_owe s then mkT [] [] [MutexEvSched.ARelease] (k_rd s) (k_up s) (k_owe s - 1) (k_hold s) else same s
+  | XRPoll i lw0 => mkT [RwReadEvSched.APoll i lw0] [] [] (k_rd s) (k_up s) (k_owe s) (k_hold s)
   | XRStep i fail =>
-      if read_succeeds (kR s) i fail then mkT [R.AStep i fail] [W.ARead] [] (k_rd s + 1) (k_up s) (k_owe s) (k_hold s)
-      else mkT [R.AStep i fail] [] [] (k_rd s) (k_up s) (k_owe s) (k_hold s)
-  | XRCancel i => mkT [R.ACancel i] [] [] (k_rd s) (k_up s) (k_owe s) (k_hold s)
-  | XRUnlock => if 0 <? k_rd s then mkT [] [W.ARUnlock] [] (k_rd s - 1) (k_up s) (k_owe s) (k_hold s) else same s
-  | XPendNW => mkT [R.APend] [] [] (k_rd s) (k_up s) (k_owe s) (k_hold s)
+      if read_succeeds (kR s) i fail then mkT [RwReadEvSched.AStep i fail] [RwWriteEvSched.ARead] [] (k_rd s + 1) (k_up s) (k_owe s) (k_hold s)
+      else mkT [RwReadEvSched.AStep i fail] [] [] (k_rd s) (k_up s) (k_owe s) (k_hold s)
+  | XRCancel i => mkT [RwReadEvSched.ACancel i] [] [] (k_rd s) (k_up s) (k_owe s) (k_hold s)
+  | XRUnlock => if 0 <? k_rd s then mkT [] [RwWriteEvSched.ARUnlock] [] (k_rd s - 1) (k_up s) (k_owe s) (k_hold s) else same s
+  | XPendNW => mkT [RwReadEvSched.APend] [] [] (k_rd s) (k_up s) (k_owe s) (k_hold s)
   | XEnter j =>
       if (0 <? k_hold s) && enter_ok (kW s) j false
-      then mkT [R.AWSet] [W.AEnter j false] [] (k_rd s) (k_up s) (k_owe s) (k_hold s - 1) else same s
-  | XWPoll j => mkT [] [W.APoll j] [] (k_rd s) (k_up s) (k_owe s) (k_hold s)
-  | XWStep j => mkT [] [W.AStep j] [] (k_rd s) (k_up s) (k_owe s) (k_hold s)
+      then mkT [RwReadEvSched.AWSet] [RwWriteEvSched.AEnter j false] [] (k_rd s) (k_up s) (k_owe s) (k_hold s - 1) else same s
+  | XWPoll j => mkT [] [RwWriteEvSched.APoll j] [] (k_rd s) (k_up s) (k_owe s) (k_hold s)
+  | XWStep j => mkT [] [RwWriteEvSched.AStep j] [] (k_rd s) (k_up s) (k_owe s) (k_hold s)
   | XWCancel j =>
       match wpc (kW s) j with
-      | Some W.WParked | Some W.WNew => mkT [R.AWClear] [W.ACancel j] [] (k_rd s) (k_up s) (k_owe s + 1) (k_hold s)
-      | _ => mkT [] [W.ACancel j] [] (k_rd s) (k_up s) (k_owe s) (k_hold s)
+      | Some RwWriteEvSched.WParked | Some RwWriteEvSched.WNew => mkT [RwReadEvSched.AWClear] [RwWriteEvSched.ACancel j] [] (k_rd s) (k_up s) (k_owe s + 1) (k_hold s)
+      | _ => mkT [] [RwWriteEvSched.ACancel j] [] (k_rd s) (k_up s) (k_owe s) (k_hold s)
       end
   | XWUnlock j =>
       match wpc (kW s) j with
-      | Some W.WDone => mkT [R.AWClear] [W.AUnlock j] [] (k_rd s) (k_up s) (k_owe s + 1) (k_hold s)
+      | Some RwWriteEvSched.WDone => mkT [RwReadEvSched.AWClear] [RwWriteEvSched.AUnlock j] [] (k_rd s) (k_up s) (k_owe s + 1) (k_hold s)
       | _ => same s
       end
-  | XPendNR => mkT [] [W.APend] [] (k_rd s) (k_up s) (k_owe s) (k_hold s)
+  | XPendNR => mkT [] [RwWriteEvSched.APend] [] (k_rd s) (k_up s) (k_owe s) (k_hold s)
   | XDowngrade j =>
       match wpc (kW s) j with
-      | Some W.WDone => mkT [R.AWClear] [W.AUnlock j; W.ARead] [] (k_rd s + 1) (k_up s) (k_owe s + 1) (k_hold s)
+      | Some RwWriteEvSched.WDone => mkT [RwReadEvSched.AWClear] [RwWriteEvSched.AUnlock j; RwWriteEvSched.ARead] [] (k_rd s + 1) (k_up s) (k_owe s + 1) (k_hold s)
       | _ => same s
       end
   | XDowngradeUp j =>
       match wpc (kW s) j with
-      | Some W.WDone => mkT [R.AWClear] [W.AUnlock j; W.ARead] [] (k_rd s) (k_up s + 1) (k_owe s) (k_hold s)
+      | Some RwWriteEvSched.WDone => mkT [RwReadEvSched.AWClear] [RwWriteEvSched.AUnlock j; RwWriteEvSched.ARead] [] (k_rd s) (k_up s + 1) (k_owe s) (k_hold s)
       | _ => same s
       end
   | XUpDone =>
-      if (0 <? k_hold s) && negb (W.g_wb (kW s)) then mkT [] [W.ARead] [] (k_rd s) (k_up s + 1) (k_owe s) (k_hold s - 1) else same s
+      if (0 <? k_hold s) && negb (RwWriteEvSched.g_wb (kW s)) then mkT [] [RwWriteEvSched.ARead] [] (k_rd s) (k_up s + 1) (k_owe s) (k_hold s - 1) else same s
   | XUpgrade j =>
-      if (0 <? k_up s) && enter_ok (kW s) j true then mkT [R.AWSet] [W.AEnter j true] [] (k_rd s) (k_up s - 1) (k_owe s) (k_hold s) else same s
-  | XUpUnlock => if 0 <? k_up s then mkT [] [W.ARUnlock] [] (k_rd s) (k_up s - 1) (k_owe s + 1) (k_hold s) else same s
+      if (0 <? k_up s) && enter_ok (kW s) j true then mkT [RwReadEvSched.AWSet] [RwWriteEvSched.AEnter j true] [] (k_rd s) (k_up s - 1) (k_owe s) (k_hold s) else same s
+  | XUpUnlock => if 0 <? k_up s then mkT [] [RwWriteEvSched.ARUnlock] [] (k_rd s) (k_up s - 1) (k_owe s + 1) (k_hold s) else same s
   | XUpDowngrade => if 0 <? k_up s then mkT [] [] [] (k_rd s + 1) (k_up s - 1) (k_owe s + 1) (k_hold s) else same s
   | XTryWrite j =>
-      if (M.g_w (kM s) =? 0) && enter_ok (kW s) j false && (W.g_rd (kW s) =? 0)
-      then mkT [R.AWSet] [W.AEnter j false] [M.ATry] (k_rd s) (k_up s) (k_owe s) (k_hold s) else same s
+      if (MutexEvSched.g_w (kM s) =? 0) && enter_ok (kW s) j false && (RwWriteEvSched.g_rd (kW s) =? 0)
+      then mkT [RwReadEvSched.AWSet] [RwWriteEvSched.AEnter j false] [MutexEvSched.ATry] (k_rd s) (k_up s) (k_owe s) (k_hold s) else same s
   | XTryUp =>
-      if (M.g_w (kM s) =? 0) && negb (W.g_wb (kW s)) then mkT [] [W.ARead] [M.ATry] (k_rd s) (k_up s + 1) (k_owe s) (k_hold s) else same s
-  | XTryFail => if M.g_w (kM s) =? 0 then mkT [] [] [M.ATry] (k_rd s) (k_up s) (k_owe s + 1) (k_hold s) else same s
+      if (MutexEvSched.g_w (kM s) =? 0) && negb (RwWriteEvSched.g_wb (kW s)) then mkT [] [RwWriteEvSched.ARead] [MutexEvSched.ATry] (k_rd s) (k_up s + 1) (k_owe s) (k_hold s) else same s
+  | XTryFail => if MutexEvSched.g_w (kM s) =? 0 then mkT [] [] [MutexEvSched.ATry] (k_rd s) (k_up s) (k_owe s + 1) (k_hold s) else same s
+  | XTryRead => if negb (RwWriteEvSched.g_wb (kW s)) then mkT [] [RwWriteEvSched.ARead] [] (k_rd s + 1) (k_up s) (k_owe s) (k_hold s) else same s
   end.
 
 Definition xstep (s : xst) (a : xact) : xst :=
   let t := tr s a in
-  mkX (fold_left (R.step true) (tR t) (kR s)) (fold_left (W.step true) (tW t) (kW s)) (fold_left (M.step true) (tM t) (kM s))
+  mkX (fold_left (RwReadEvSched.step true) (tR t) (kR s)) (fold_left (RwWriteEvSched.step true) (tW t) (kW s)) (fold_left (MutexEvSched.step true) (tM t) (kM s))
       (sR s ++ tR t) (sW s ++ tW t) (sM s ++ tM t) (n_rd t) (n_up t) (n_owe t) (n_hold t).
-Definition x0 (nr nw nm : nat) : xst := mkX (R.g0 nr) (W.g0 0 nw) (M.g0 nm) [] [] [] 0 0 0 0.
+Definition x0 (nr nw nm : nat) : xst := mkX (RwReadEvSched.g0 nr) (RwWriteEvSched.g0 0 nw) (MutexEvSched.g0 nm) [] [] [] 0 0 0 0.
 Definition xrun (nr nw nm : nat) (sched : list xact) : xst := fold_left xstep sched (x0 nr nw nm).
 
 (* ---------- every component of a composed run is a run of its machine ---------- *)
 Definition Comp (nr nw nm : nat) (s : xst) : Prop :=
-  kR s = R.run true nr (sR s) /\ kW s = W.run true 0 nw (sW s) /\ kM s = M.run true nm (sM s).
+  kR s = RwReadEvSched.run true nr (sR s) /\ kW s = RwWriteEvSched.run true 0 nw (sW s) /\ kM s = MutexEvSched.run true nm (sM s).
 Lemma xstep_Comp nr nw nm s a : Comp nr nw nm s -> Comp nr nw nm (xstep s a).
 Proof.
-  intros (HR & HW & HM). unfold Comp, xstep. cbn [kR kW kM sR sW sM]. unfold R.run, W.run, M.run in *.
+  intros (HR & HW & HM). unfold Comp, xstep. cbn [kR kW kM sR sW sM]. unfold RwReadEvSched.run, RwWriteEvSched.run, MutexEvSched.run in *.
   rewrite !fold_left_app. rewrite <- HR, <- HW, <- HM. repeat split.
 Qed.
 Lemma xrun_Comp nr nw nm sched : Comp nr nw nm (xrun nr nw nm sched).
@@ -132,75 +127,75 @@ Proof.
 Qed.
 
 (* ---------- what the component actions do to the shared quantities ---------- *)
-Lemma W_rd_step s a : W.g_rd (W.step true s a) =
+Lemma W_rd_step s a : RwWriteEvSched.g_rd (RwWriteEvSched.step true s a) =
   match a with
-  | W.AEnter j up => if enter_ok s j up && up then W.g_rd s - 1 else W.g_rd s
-  | W.ARead => if W.g_wb s then W.g_rd s else W.g_rd s + 1
-  | W.ARUnlock => if 0 <? W.g_rd s then W.g_rd s - 1 else W.g_rd s
-  | _ => W.g_rd s
+  | RwWriteEvSched.AEnter j up => if enter_ok s j up && up then RwWriteEvSched.g_rd s - 1 else RwWriteEvSched.g_rd s
+  | RwWriteEvSched.ARead => if RwWriteEvSched.g_wb s then RwWriteEvSched.g_rd s else RwWriteEvSched.g_rd s + 1
+  | RwWriteEvSched.ARUnlock => if 0 <? RwWriteEvSched.g_rd s then RwWriteEvSched.g_rd s - 1 else RwWriteEvSched.g_rd s
+  | _ => RwWriteEvSched.g_rd s
   end.
 Proof.
-  unfold enter_ok, wpc. destruct a as [i up|i|i|i|i| | |]; cbn [W.step].
-  - destruct (W.getf s i) as [f|]; cbn [option_map]; [|reflexivity]. destruct (W.fpc f); try reflexivity.
-    destruct (W.g_act s || (up && (W.g_rd s =? 0))); cbn [negb andb]; [reflexivity|]. destruct up; reflexivity.
-  - destruct (W.getf s i) as [f|]; [|reflexivity]. destruct (W.fpc f); reflexivity.
-  - destruct (W.getf s i) as [f|]; [|reflexivity]. destruct (W.fpc f); try reflexivity.
-    + destruct (W.g_rd s =? 0); reflexivity.
-    + destruct (W.flis f) as [id|]; [|reflexivity]. destruct (ev_poll id i (W.g_ev s)) as [[l [|]]|]; reflexivity.
-    + unfold W.do_drop. cbn [W.g_ev W.with_fut]. destruct (ev_drop_opt (W.flis f) (W.g_ev s)). reflexivity.
-    + unfold W.do_drop. cbn [W.g_ev W.with_fut]. destruct (ev_drop_opt (W.flis f) (W.g_ev s)). reflexivity.
-  - destruct (W.getf s i) as [f|]; [|reflexivity]. destruct (W.fpc f); reflexivity.
-  - destruct (W.getf s i) as [f|]; [|reflexivity]. destruct (W.fpc f); reflexivity.
-  - destruct (W.g_wb s); reflexivity.
-  - destruct (0 <? W.g_rd s); reflexivity.
-  - destruct (0 <? W.g_pend s); [|reflexivity]. unfold W.do_notify. cbn [W.g_ev]. destruct (ev_notify 1 false (W.g_ev s)). reflexivity.
+  unfold enter_ok, wpc. destruct a as [i up|i|i|i|i| | |]; cbn [RwWriteEvSched.step].
+  - destruct (RwWriteEvSched.getf s i) as [f|]; cbn [option_map]; [|reflexivity]. destruct (RwWriteEvSched.fpc f); try reflexivity.
+    destruct (RwWriteEvSched.g_act s || (up && (RwWriteEvSched.g_rd s =? 0))); cbn [negb andb]; [reflexivity|]. destruct up; reflexivity.
+  - destruct (RwWriteEvSched.getf s i) as [f|]; [|reflexivity]. destruct (RwWriteEvSched.fpc f); reflexivity.
+  - destruct (RwWriteEvSched.getf s i) as [f|]; [|reflexivity]. destruct (RwWriteEvSched.fpc f); try reflexivity.
+    + destruct (RwWriteEvSched.g_rd s =? 0); reflexivity.
+    + destruct (RwWriteEvSched.flis f) as [id|]; [|reflexivity]. destruct (ev_poll id i (RwWriteEvSched.g_ev s)) as [[l [|]]|]; reflexivity.
+    + unfold RwWriteEvSched.do_drop. cbn [RwWriteEvSched.g_ev RwWriteEvSched.with_fut]. destruct (ev_drop_opt (RwWriteEvSched.flis f) (RwWriteEvSched.g_ev s)). reflexivity.
+    + unfold RwWriteEvSched.do_drop. cbn [RwWriteEvSched.g_ev RwWriteEvSched.with_fut]. destruct (ev_drop_opt (RwWriteEvSched.flis f) (RwWriteEvSched.g_ev s)). reflexivity.
+  - destruct (RwWriteEvSched.getf s i) as [f|]; [|reflexivity]. destruct (RwWriteEvSched.fpc f); reflexivity.
+  - destruct (RwWriteEvSched.getf s i) as [f|]; [|reflexivity]. destruct (RwWriteEvSched.fpc f); reflexivity.
+  - destruct (RwWriteEvSched.g_wb s); reflexivity.
+  - destruct (0 <? RwWriteEvSched.g_rd s); reflexivity.
+  - destruct (0 <? RwWriteEvSched.g_pend s); [|reflexivity]. unfold RwWriteEvSched.do_notify. cbn [RwWriteEvSched.g_ev]. destruct (ev_notify 1 false (RwWriteEvSched.g_ev s)). reflexivity.
 Qed.
 
-Definition m_own_act (a : M.act) : bool := match a with M.ARelease | M.ATry => false | _ => true end.
-Lemma M_guards_mono s a : m_own_act a = true -> M.g_guards s <= M.g_guards (M.step true s a).
+Definition m_own_act (a : MutexEvSched.act) : bool := match a with MutexEvSched.ARelease | MutexEvSched.ATry => false | _ => true end.
+Lemma M_guards_mono s a : m_own_act a = true -> MutexEvSched.g_guards s <= MutexEvSched.g_guards (MutexEvSched.step true s a).
 Proof.
-  intro H. destruct a as [i|i clock|i| | |]; try discriminate; cbn [M.step].
-  - destruct (M.getf s i) as [f|]; [|lia]. destruct (M.fpc f); cbn; lia.
-  - destruct (M.getf s i) as [f|]; [|lia].
-    destruct (M.fpc f); try (cbn; lia);
+  intro H. destruct a as [i|i clock|i| | |]; try discriminate; cbn [MutexEvSched.step].
+  - destruct (MutexEvSched.getf s i) as [f|]; [|lia]. destruct (MutexEvSched.fpc f); cbn; lia.
+  - destruct (MutexEvSched.getf s i) as [f|]; [|lia].
+    destruct (MutexEvSched.fpc f); try (cbn; lia);
       repeat match goal with
              | |- context [if ?c then _ else _] => destruct c
-             | |- context [M.wait_step _ _ _ _ _] => unfold M.wait_step
-             | |- context [match M.flis ?f with _ => _ end] => destruct (M.flis f)
+             | |- context [MutexEvSched.wait_step _ _ _ _ _] => unfold MutexEvSched.wait_step
+             | |- context [match MutexEvSched.flis ?f with _ => _ end] => destruct (MutexEvSched.flis f)
              | |- context [match ev_poll ?a ?b ?c with _ => _ end] => destruct (ev_poll a b c) as [[? [|]]|]
-             | |- context [M.do_drop ?o ?x] => rewrite (proj1 (proj2 (MI.drop_futs o x)))
-             | |- context [M.do_notify ?n ?x] => rewrite (proj1 (proj2 (MI.notify_futs n x)))
+             | |- context [MutexEvSched.do_drop ?o ?x] => rewrite (proj1 (proj2 (MutexEvInv.drop_futs o x)))
+             | |- context [MutexEvSched.do_notify ?n ?x] => rewrite (proj1 (proj2 (MutexEvInv.notify_futs n x)))
              end; cbn; try lia.
-  - destruct (M.getf s i) as [f|]; [|lia]. destruct (M.fpc f); cbn; lia.
-  - destruct (0 <? M.g_pend s); [|lia]. rewrite (proj1 (proj2 (MI.notify_futs _ _))). cbn. lia.
+  - destruct (MutexEvSched.getf s i) as [f|]; [|lia]. destruct (MutexEvSched.fpc f); cbn; lia.
+  - destruct (0 <? MutexEvSched.g_pend s); [|lia]. rewrite (proj1 (proj2 (MutexEvInv.notify_futs _ _))). cbn. lia.
 Qed.
-Lemma M_guards_try s : M.g_guards (M.step true s M.ATry) = if M.g_w s =? 0 then M.g_guards s + 1 else M.g_guards s.
-Proof. cbn [M.step]. destruct (M.g_w s =? 0); reflexivity. Qed.
-Lemma M_guards_release s : M.g_guards (M.step true s M.ARelease) = if 0 <? M.g_guards s then M.g_guards s - 1 else M.g_guards s.
-Proof. cbn [M.step]. destruct (0 <? M.g_guards s); reflexivity. Qed.
+Lemma M_guards_try s : MutexEvSched.g_guards (MutexEvSched.step true s MutexEvSched.ATry) = if MutexEvSched.g_w s =? 0 then MutexEvSched.g_guards s + 1 else MutexEvSched.g_guards s.
+Proof. cbn [MutexEvSched.step]. destruct (MutexEvSched.g_w s =? 0); reflexivity. Qed.
+Lemma M_guards_release s : MutexEvSched.g_guards (MutexEvSched.step true s MutexEvSched.ARelease) = if 0 <? MutexEvSched.g_guards s then MutexEvSched.g_guards s - 1 else MutexEvSched.g_guards s.
+Proof. cbn [MutexEvSched.step]. destruct (0 <? MutexEvSched.g_guards s); reflexivity. Qed.
 
 (* ---------- coherence ---------- *)
 Definition b2N (b : bool) : N := if b then 1 else 0.
 Record Coh (s : xst) : Prop := mkCoh {
-  co_bit : R.g_wb (kR s) = W.g_wb (kW s);
-  co_act : W.g_act (kW s) = W.g_wb (kW s);
-  co_rd : W.g_rd (kW s) = k_rd s + k_up s;
-  co_mutex : M.g_guards (kM s) = k_up s + b2N (W.g_act (kW s)) + k_owe s + k_hold s }.
+  co_bit : RwReadEvSched.g_wb (kR s) = RwWriteEvSched.g_wb (kW s);
+  co_act : RwWriteEvSched.g_act (kW s) = RwWriteEvSched.g_wb (kW s);
+  co_rd : RwWriteEvSched.g_rd (kW s) = k_rd s + k_up s;
+  co_mutex : MutexEvSched.g_guards (kM s) = k_up s + b2N (RwWriteEvSched.g_act (kW s)) + k_owe s + k_hold s }.
 
 (* a future past the inner mutex means g_act (the accounting invariant of the writer side, which holds of the component
    because it is a run of its machine) *)
-Lemma act_of_pc nw sw j p : wpc (W.run true 0 nw sw) j = Some p -> WI.actpc (W.mkF p None false) = true -> W.g_act (W.run true 0 nw sw) = true.
+Lemma act_of_pc nw sw j p : wpc (RwWriteEvSched.run true 0 nw sw) j = Some p -> RwWriteEvInv.actpc (RwWriteEvSched.mkF p None false) = true -> RwWriteEvSched.g_act (RwWriteEvSched.run true 0 nw sw) = true.
 Proof.
-  intros Hp Ap. pose proof (WI.run_inv sw 0 nw) as (_ & Ai & _). unfold WI.Ainv in Ai.
-  unfold wpc in Hp. destruct (W.getf (W.run true 0 nw sw) j) as [f|] eqn:L; [|discriminate]. cbn in Hp. inversion Hp; subst p.
-  assert (Af : WI.actpc f = true) by (rewrite WI.actpc_eq in *; cbn [W.fpc] in Ap; exact Ap).
-  pose proof (WI.cntb_ge WI.actpc j f _ L Af) as G. destruct (W.g_act (W.run true 0 nw sw)); [reflexivity | cbn in Ai; lia].
+  intros Hp Ap. pose proof (RwWriteEvInv.run_inv sw 0 nw) as (_ & Ai & _). unfold RwWriteEvInv.Ainv in Ai.
+  unfold wpc in Hp. destruct (RwWriteEvSched.getf (RwWriteEvSched.run true 0 nw sw) j) as [f|] eqn:L; [|discriminate]. cbn in Hp. inversion Hp; subst p.
+  assert (Af : RwWriteEvInv.actpc f = true) by (rewrite RwWriteEvInv.actpc_eq in *; cbn [RwWriteEvSched.fpc] in Ap; exact Ap).
+  pose proof (RwWriteEvInv.cntb_ge RwWriteEvInv.actpc j f _ L Af) as G. destruct (RwWriteEvSched.g_act (RwWriteEvSched.run true 0 nw sw)); [reflexivity | cbn in Ai; lia].
 Qed.
 
 Ltac wsimp1 := first
   [ rewrite R_wb_step
-  | match goal with |- context [W.g_wb (W.step true ?x ?a)] => rewrite (proj1 (W_bits x a)) end
-  | match goal with |- context [W.g_act (W.step true ?x ?a)] => rewrite (proj2 (W_bits x a)) end
+  | match goal with |- context [RwWriteEvSched.g_wb (RwWriteEvSched.step true ?x ?a)] => rewrite (proj1 (W_bits x a)) end
+  | match goal with |- context [RwWriteEvSched.g_act (RwWriteEvSched.step true ?x ?a)] => rewrite (proj2 (W_bits x a)) end
   | rewrite W_rd_step | rewrite M_guards_try | rewrite M_guards_release ].
 Ltac wsimp := repeat (wsimp1; cbn [wspec wbit fst snd]).
 Ltac fin C1 C2 C3 C4 := constructor; cbn [kR kW kM k_rd k_up k_owe k_hold fold_left tR tW tM n_rd n_up n_owe n_hold]; wsimp;
@@ -211,26 +206,26 @@ Ltac post C2 := cbn [wbit wspec fst snd andb]; wsimp; rewrite ?C2 in *; cbv iota
 Lemma xstep_Coh nr nw nm s a : Comp nr nw nm s -> Coh s -> Coh (xstep s a).
 Proof.
   intros (_ & HW & _) [C1 C2 C3 C4]. unfold xstep.
-  assert (ACT : forall j p, wpc (kW s) j = Some p -> WI.actpc (W.mkF p None false) = true -> W.g_act (kW s) = true).
+  assert (ACT : forall j p, wpc (kW s) j = Some p -> RwWriteEvInv.actpc (RwWriteEvSched.mkF p None false) = true -> RwWriteEvSched.g_act (kW s) = true).
   { intros j p. rewrite HW. apply act_of_pc. }
-  assert (ENT : forall j up, enter_ok (kW s) j up = true -> W.g_act (kW s) = false).
+  assert (ENT : forall j up, enter_ok (kW s) j up = true -> RwWriteEvSched.g_act (kW s) = false).
   { intros j up Ee. unfold enter_ok in Ee. destruct (wpc (kW s) j) as [[]|]; try discriminate. apply Bool.negb_true_iff in Ee. apply Bool.orb_false_iff in Ee. apply Ee. }
   destruct a; cbn [tr].
-  - (* XMPoll *) pose proof (M_guards_mono (kM s) (M.APoll i) eq_refl) as G. unfold m_own. fin C1 C2 C3 C4.
-  - pose proof (M_guards_mono (kM s) (M.AStep i clock) eq_refl) as G. unfold m_own. fin C1 C2 C3 C4.
-  - pose proof (M_guards_mono (kM s) (M.ACancel i) eq_refl) as G. unfold m_own. fin C1 C2 C3 C4.
-  - pose proof (M_guards_mono (kM s) M.APend eq_refl) as G. unfold m_own. fin C1 C2 C3 C4.
+  - (* XMPoll *) pose proof (M_guards_mono (kM s) (MutexEvSched.APoll i) eq_refl) as G. unfold m_own. fin C1 C2 C3 C4.
+  - pose proof (M_guards_mono (kM s) (MutexEvSched.AStep i clock) eq_refl) as G. unfold m_own. fin C1 C2 C3 C4.
+  - pose proof (M_guards_mono (kM s) (MutexEvSched.ACancel i) eq_refl) as G. unfold m_own. fin C1 C2 C3 C4.
+  - pose proof (M_guards_mono (kM s) MutexEvSched.APend eq_refl) as G. unfold m_own. fin C1 C2 C3 C4.
   - (* XRelease *) destruct (0 <? k_owe s) eqn:E; [|unfold same; fin C1 C2 C3 C4]. apply N.ltb_lt in E.
-    assert (Gp : 0 <? M.g_guards (kM s) = true) by (apply N.ltb_lt; unfold b2N in C4; lia). fin C1 C2 C3 C4. all: rewrite ?Gp; post C2.
+    assert (Gp : 0 <? MutexEvSched.g_guards (kM s) = true) by (apply N.ltb_lt; unfold b2N in C4; lia). fin C1 C2 C3 C4. all: rewrite ?Gp; post C2.
   - (* XRPoll *) fin C1 C2 C3 C4.
   - (* XRStep *) destruct (read_succeeds (kR s) i fail) eqn:E; [|fin C1 C2 C3 C4].
-    assert (Wb : W.g_wb (kW s) = false).
-    { unfold read_succeeds in E. destruct (R.getf (kR s) i) as [f|]; [|discriminate]. destruct (R.fpc f); try discriminate.
+    assert (Wb : RwWriteEvSched.g_wb (kW s) = false).
+    { unfold read_succeeds in E. destruct (RwReadEvSched.getf (kR s) i) as [f|]; [|discriminate]. destruct (RwReadEvSched.fpc f); try discriminate.
       apply Bool.andb_true_iff in E. destruct E as (E & _). apply Bool.andb_true_iff in E. destruct E as (_ & E). apply Bool.negb_true_iff in E. congruence. }
     fin C1 C2 C3 C4. all: rewrite ?Wb; post C2.
   - fin C1 C2 C3 C4.
   - (* XRUnlock *) destruct (0 <? k_rd s) eqn:E; [|unfold same; fin C1 C2 C3 C4]. apply N.ltb_lt in E.
-    assert (Gp : 0 <? W.g_rd (kW s) = true) by (apply N.ltb_lt; lia). fin C1 C2 C3 C4. all: rewrite ?Gp; post C2.
+    assert (Gp : 0 <? RwWriteEvSched.g_rd (kW s) = true) by (apply N.ltb_lt; lia). fin C1 C2 C3 C4. all: rewrite ?Gp; post C2.
   - fin C1 C2 C3 C4.
   - (* XEnter *) destruct ((0 <? k_hold s) && enter_ok (kW s) j false) eqn:E; [|unfold same; fin C1 C2 C3 C4].
     apply Bool.andb_true_iff in E. destruct E as (Eh & Ee). apply N.ltb_lt in Eh. pose proof (ENT j false Ee) as Af.
@@ -246,22 +241,24 @@ Proof.
     pose proof (ACT j _ E eq_refl) as At. fin C1 C2 C3 C4. all: rewrite ?E; cbn [wbit wspec fst snd andb]; rewrite ?At in *; post C2.
   - (* XDowngradeUp *) destruct (wpc (kW s) j) as [p|] eqn:E; [destruct p|]; try solve [unfold same; fin C1 C2 C3 C4].
     pose proof (ACT j _ E eq_refl) as At. fin C1 C2 C3 C4. all: rewrite ?E; cbn [wbit wspec fst snd andb]; rewrite ?At in *; post C2.
-  - (* XUpDone *) destruct ((0 <? k_hold s) && negb (W.g_wb (kW s))) eqn:E; [|unfold same; fin C1 C2 C3 C4].
+  - (* XUpDone *) destruct ((0 <? k_hold s) && negb (RwWriteEvSched.g_wb (kW s))) eqn:E; [|unfold same; fin C1 C2 C3 C4].
     apply Bool.andb_true_iff in E. destruct E as (Eh & Ew). apply N.ltb_lt in Eh. apply Bool.negb_true_iff in Ew.
     fin C1 C2 C3 C4. all: rewrite ?Ew in *; post C2.
   - (* XUpgrade *) destruct ((0 <? k_up s) && enter_ok (kW s) j true) eqn:E; [|unfold same; fin C1 C2 C3 C4].
     apply Bool.andb_true_iff in E. destruct E as (Eu & Ee). apply N.ltb_lt in Eu. pose proof (ENT j true Ee) as Af.
     fin C1 C2 C3 C4. all: rewrite ?Ee; cbn [wbit wspec fst snd andb]; rewrite ?Af in *; post C2.
   - (* XUpUnlock *) destruct (0 <? k_up s) eqn:E; [|unfold same; fin C1 C2 C3 C4]. apply N.ltb_lt in E.
-    assert (Gp : 0 <? W.g_rd (kW s) = true) by (apply N.ltb_lt; lia). fin C1 C2 C3 C4. all: rewrite ?Gp; post C2.
+    assert (Gp : 0 <? RwWriteEvSched.g_rd (kW s) = true) by (apply N.ltb_lt; lia). fin C1 C2 C3 C4. all: rewrite ?Gp; post C2.
   - (* XUpDowngrade *) destruct (0 <? k_up s) eqn:E; [|unfold same; fin C1 C2 C3 C4]. apply N.ltb_lt in E. fin C1 C2 C3 C4.
-  - (* XTryWrite *) destruct ((M.g_w (kM s) =? 0) && enter_ok (kW s) j false && (W.g_rd (kW s) =? 0)) eqn:E; [|unfold same; fin C1 C2 C3 C4].
+  - (* XTryWrite *) destruct ((MutexEvSched.g_w (kM s) =? 0) && enter_ok (kW s) j false && (RwWriteEvSched.g_rd (kW s) =? 0)) eqn:E; [|unfold same; fin C1 C2 C3 C4].
     apply Bool.andb_true_iff in E. destruct E as (E & Er). apply Bool.andb_true_iff in E. destruct E as (Em & Ee). pose proof (ENT j false Ee) as Af.
     fin C1 C2 C3 C4. all: rewrite ?Ee, ?Em; cbn [wbit wspec fst snd andb]; rewrite ?Af in *; post C2.
-  - (* XTryUp *) destruct ((M.g_w (kM s) =? 0) && negb (W.g_wb (kW s))) eqn:E; [|unfold same; fin C1 C2 C3 C4].
+  - (* XTryUp *) destruct ((MutexEvSched.g_w (kM s) =? 0) && negb (RwWriteEvSched.g_wb (kW s))) eqn:E; [|unfold same; fin C1 C2 C3 C4].
     apply Bool.andb_true_iff in E. destruct E as (Em & Ew). apply Bool.negb_true_iff in Ew.
     fin C1 C2 C3 C4. all: rewrite ?Ew, ?Em in *; post C2.
-  - (* XTryFail *) destruct (M.g_w (kM s) =? 0) eqn:Em; [|unfold same; fin C1 C2 C3 C4]. fin C1 C2 C3 C4. all: rewrite ?Em; post C2.
+  - (* XTryFail *) destruct (MutexEvSched.g_w (kM s) =? 0) eqn:Em; [|unfold same; fin C1 C2 C3 C4]. fin C1 C2 C3 C4. all: rewrite ?Em; post C2.
+  - (* XTryRead *) destruct (negb (RwWriteEvSched.g_wb (kW s))) eqn:Ew; [|unfold same; fin C1 C2 C3 C4]. apply Bool.negb_true_iff in Ew.
+    fin C1 C2 C3 C4. all: rewrite ?Ew in *; post C2.
 Qed.
 
 Theorem xrun_inv nr nw nm sched : Comp nr nw nm (xrun nr nw nm sched) /\ Coh (xrun nr nw nm sched).
@@ -273,42 +270,42 @@ Qed.
 
 (* ---------- C06 on the composed run ---------- *)
 Theorem rw3_no_lost_wakeup nr nw nm sched : let s := xrun nr nw nm sched in
-  R.lostb (kR s) = false /\ W.lostb (kW s) = false /\ M.lostb (kM s) = false.
+  RwReadEvSched.lostb (kR s) = false /\ RwWriteEvSched.lostb (kW s) = false /\ MutexEvSched.lostb (kM s) = false.
 Proof.
   intro s. destruct (xrun_inv nr nw nm sched) as ((HR & HW & HM) & _). fold s in HR, HW, HM. rewrite HR, HW, HM.
-  split; [apply RI.rw_read_sched_no_lost_wakeup | split; [apply WI.rw_write_sched_no_lost_wakeup | apply MI.mutex_sched_no_lost_wakeup]].
+  split; [apply RwReadEvInv.rw_read_sched_no_lost_wakeup | split; [apply RwWriteEvInv.rw_write_sched_no_lost_wakeup | apply MutexEvInv.mutex_sched_no_lost_wakeup]].
 Qed.
 
-Lemma cntb_zero_W (P : W.fut -> bool) l : (forall f, In f l -> P f = false) -> WI.cntb P l = 0.
+Lemma cntb_zero_W (P : RwWriteEvSched.fut -> bool) l : (forall f, In f l -> P f = false) -> RwWriteEvInv.cntb P l = 0.
 Proof. induction l as [|x r IH]; intro H; cbn; [reflexivity|]. rewrite (H x (or_introl eq_refl)). rewrite IH; [reflexivity|]. intros f Hf. apply H. right. exact Hf. Qed.
-Lemma cntb_zero_M (P : M.fut -> bool) l : (forall f, In f l -> P f = false) -> MI.cntb P l = 0.
+Lemma cntb_zero_M (P : MutexEvSched.fut -> bool) l : (forall f, In f l -> P f = false) -> MutexEvInv.cntb P l = 0.
 Proof. induction l as [|x r IH]; intro H; cbn; [reflexivity|]. rewrite (H x (or_introl eq_refl)). rewrite IH; [reflexivity|]. intros f Hf. apply H. right. exact Hf. Qed.
 Lemma existsb_false_In {A} (P : A -> bool) l : existsb P l = false -> forall x, In x l -> P x = false.
 Proof. intros H x Hx. destruct (P x) eqn:E; [|reflexivity]. assert (existsb P l = true) by (apply existsb_exists; exists x; split; assumption). congruence. Qed.
 
 (* nobody is past the inner mutex on the writer side: no write guard alive (WDone), every upgrade() future has been
    polled at least once (WNew) *)
-Definition no_writer_alive (s : xst) : Prop := forall f, In f (W.g_futs (kW s)) -> W.fpc f <> W.WDone /\ W.fpc f <> W.WNew.
+Definition no_writer_alive (s : xst) : Prop := forall f, In f (RwWriteEvSched.g_futs (kW s)) -> RwWriteEvSched.fpc f <> RwWriteEvSched.WDone /\ RwWriteEvSched.fpc f <> RwWriteEvSched.WNew.
 
 (* clause (d) and the heart of (a): no reader of any kind is left and the writer side is at rest: no polled write() /
    upgrade() waits, and if no write guard is alive either, nobody is past the inner mutex: WRITER_BIT is clear *)
 Lemma rw3_writer_side nr nw nm sched : let s := xrun nr nw nm sched in
-  k_rd s = 0 -> k_up s = 0 -> W.quiescentb (kW s) = true ->
-  existsb W.parkedb (W.g_futs (kW s)) = false /\ (no_writer_alive s -> W.g_act (kW s) = false /\ R.g_wb (kR s) = false).
+  k_rd s = 0 -> k_up s = 0 -> RwWriteEvSched.quiescentb (kW s) = true ->
+  existsb RwWriteEvSched.parkedb (RwWriteEvSched.g_futs (kW s)) = false /\ (no_writer_alive s -> RwWriteEvSched.g_act (kW s) = false /\ RwReadEvSched.g_wb (kR s) = false).
 Proof.
   intros s Zr Zu Q. destruct (xrun_inv nr nw nm sched) as ((HR & HW & HM) & [C1 C2 C3 C4]). fold s in HR, HW, HM, C1, C2, C3, C4.
   destruct (rw3_no_lost_wakeup nr nw nm sched) as (_ & LW & _). fold s in LW.
-  assert (Rd : W.g_rd (kW s) = 0) by (rewrite C3; lia).
-  assert (NP : existsb W.parkedb (W.g_futs (kW s)) = false).
-  { unfold W.lostb in LW. rewrite Rd, Q in LW. cbn in LW. exact LW. }
+  assert (Rd : RwWriteEvSched.g_rd (kW s) = 0) by (rewrite C3; lia).
+  assert (NP : existsb RwWriteEvSched.parkedb (RwWriteEvSched.g_futs (kW s)) = false).
+  { unfold RwWriteEvSched.lostb in LW. rewrite Rd, Q in LW. cbn in LW. exact LW. }
   split; [exact NP|]. intro NW.
-  assert (A0 : WI.cntb WI.actpc (W.g_futs (kW s)) = 0).
+  assert (A0 : RwWriteEvInv.cntb RwWriteEvInv.actpc (RwWriteEvSched.g_futs (kW s)) = 0).
   { apply cntb_zero_W. intros f Hf. destruct (NW f Hf) as (N1 & N2).
-    pose proof (existsb_false_In _ _ NP f Hf) as Pf. unfold W.quiescentb in Q. apply Bool.andb_true_iff in Q. destruct Q as (QF & _).
-    rewrite forallb_forall in QF. specialize (QF f Hf). unfold W.at_rest in QF. unfold W.parkedb in Pf. rewrite WI.actpc_eq.
-    destruct (W.fpc f); try reflexivity; try discriminate; try contradiction. }
-  pose proof (WI.run_inv (sW s) 0 nw) as (_ & Ai & _). rewrite <- HW in Ai. unfold WI.Ainv in Ai. rewrite A0 in Ai.
-  assert (Act : W.g_act (kW s) = false) by (destruct (W.g_act (kW s)); [cbn in Ai; discriminate | reflexivity]).
+    pose proof (existsb_false_In _ _ NP f Hf) as Pf. unfold RwWriteEvSched.quiescentb in Q. apply Bool.andb_true_iff in Q. destruct Q as (QF & _).
+    rewrite forallb_forall in QF. specialize (QF f Hf). unfold RwWriteEvSched.at_rest in QF. unfold RwWriteEvSched.parkedb in Pf. rewrite RwWriteEvInv.actpc_eq.
+    destruct (RwWriteEvSched.fpc f); try reflexivity; try discriminate; try contradiction. }
+  pose proof (RwWriteEvInv.run_inv (sW s) 0 nw) as (_ & Ai & _). rewrite <- HW in Ai. unfold RwWriteEvInv.Ainv in Ai. rewrite A0 in Ai.
+  assert (Act : RwWriteEvSched.g_act (kW s) = false) by (destruct (RwWriteEvSched.g_act (kW s)); [cbn in Ai; discriminate | reflexivity]).
   split; [exact Act | rewrite C1, <- C2; exact Act].
 Qed.
 
@@ -317,53 +314,53 @@ Qed.
    no write() / upgradable_read() queued on the inner mutex *)
 Theorem rw3_idle nr nw nm sched : let s := xrun nr nw nm sched in
   k_rd s = 0 -> k_up s = 0 -> k_owe s = 0 -> k_hold s = 0 -> no_writer_alive s ->
-  R.quiescentb (kR s) = true -> W.quiescentb (kW s) = true -> M.quiescentb (kM s) = true ->
-  existsb R.parkedb (R.g_futs (kR s)) = false /\ existsb W.parkedb (W.g_futs (kW s)) = false /\ existsb M.parked (M.g_futs (kM s)) = false.
+  RwReadEvSched.quiescentb (kR s) = true -> RwWriteEvSched.quiescentb (kW s) = true -> MutexEvSched.quiescentb (kM s) = true ->
+  existsb RwReadEvSched.parkedb (RwReadEvSched.g_futs (kR s)) = false /\ existsb RwWriteEvSched.parkedb (RwWriteEvSched.g_futs (kW s)) = false /\ existsb MutexEvSched.parked (MutexEvSched.g_futs (kM s)) = false.
 Proof.
   intros s Zr Zu Zo Zh NW QR QW QM.
   destruct (xrun_inv nr nw nm sched) as ((HR & HW & HM) & [C1 C2 C3 C4]). fold s in HR, HW, HM, C1, C2, C3, C4.
   destruct (rw3_no_lost_wakeup nr nw nm sched) as (LR & _ & LM). fold s in LR, LM.
   destruct (rw3_writer_side nr nw nm sched Zr Zu QW) as (NPW & K). fold s in NPW, K. destruct (K NW) as (Act & Wb).
   split; [|split; [exact NPW|]].
-  - unfold R.lostb in LR. rewrite Wb, QR in LR. cbn in LR. exact LR.
-  - assert (G0 : M.g_guards (kM s) = 0) by (rewrite C4, Act, Zu, Zo, Zh; reflexivity).
-    pose proof (MI.run_inv (sM s) nm) as (_ & (Wi & _) & _). rewrite <- HM in Wi.
-    assert (H0 : MI.cntb MI.holdpc (M.g_futs (kM s)) = 0).
-    { apply cntb_zero_M. intros f Hf. unfold M.quiescentb in QM. apply Bool.andb_true_iff in QM. destruct QM as (QF & _).
-      rewrite forallb_forall in QF. specialize (QF f Hf). unfold M.at_rest in QF. rewrite MI.holdpc_eq. destruct (M.fpc f); try reflexivity; discriminate. }
-    assert (Ev : M.g_w (kM s) mod 2 = 0).
+  - unfold RwReadEvSched.lostb in LR. rewrite Wb, QR in LR. cbn in LR. exact LR.
+  - assert (G0 : MutexEvSched.g_guards (kM s) = 0) by (rewrite C4, Act, Zu, Zo, Zh; reflexivity).
+    pose proof (MutexEvInv.run_inv (sM s) nm) as (_ & (Wi & _) & _). rewrite <- HM in Wi.
+    assert (H0 : MutexEvInv.cntb MutexEvInv.holdpc (MutexEvSched.g_futs (kM s)) = 0).
+    { apply cntb_zero_M. intros f Hf. unfold MutexEvSched.quiescentb in QM. apply Bool.andb_true_iff in QM. destruct QM as (QF & _).
+      rewrite forallb_forall in QF. specialize (QF f Hf). unfold MutexEvSched.at_rest in QF. rewrite MutexEvInv.holdpc_eq. destruct (MutexEvSched.fpc f); try reflexivity; discriminate. }
+    assert (Ev : MutexEvSched.g_w (kM s) mod 2 = 0).
     { rewrite Wi, G0, H0. rewrite N.add_0_r, N.mul_comm. apply N.mod_mul. discriminate. }
-    unfold M.lostb in LM. rewrite Ev, QM in LM. cbn in LM. exact LM.
+    unfold MutexEvSched.lostb in LM. rewrite Ev, QM in LM. cbn in LM. exact LM.
 Qed.
 
 (* clause (c): no write or upgradable guard alive, nobody past the inner mutex, nobody owing an unlock or in the middle of
    an acquisition, the mutex side at rest ==> nothing waits for the inner mutex (readers may be alive) *)
 Theorem rw3_mutex_free nr nw nm sched : let s := xrun nr nw nm sched in
-  k_up s = 0 -> k_owe s = 0 -> k_hold s = 0 -> W.g_act (kW s) = false -> M.quiescentb (kM s) = true ->
-  existsb M.parked (M.g_futs (kM s)) = false.
+  k_up s = 0 -> k_owe s = 0 -> k_hold s = 0 -> RwWriteEvSched.g_act (kW s) = false -> MutexEvSched.quiescentb (kM s) = true ->
+  existsb MutexEvSched.parked (MutexEvSched.g_futs (kM s)) = false.
 Proof.
   intros s Zu Zo Zh Act QM.
   destruct (xrun_inv nr nw nm sched) as ((HR & HW & HM) & [C1 C2 C3 C4]). fold s in HR, HW, HM, C1, C2, C3, C4.
   destruct (rw3_no_lost_wakeup nr nw nm sched) as (_ & _ & LM). fold s in LM.
-  assert (G0 : M.g_guards (kM s) = 0) by (rewrite C4, Act, Zu, Zo, Zh; reflexivity).
-  pose proof (MI.run_inv (sM s) nm) as (_ & (Wi & _) & _). rewrite <- HM in Wi.
-  assert (H0 : MI.cntb MI.holdpc (M.g_futs (kM s)) = 0).
-  { apply cntb_zero_M. intros f Hf. unfold M.quiescentb in QM. apply Bool.andb_true_iff in QM. destruct QM as (QF & _).
-    rewrite forallb_forall in QF. specialize (QF f Hf). unfold M.at_rest in QF. rewrite MI.holdpc_eq. destruct (M.fpc f); try reflexivity; discriminate. }
-  assert (Ev : M.g_w (kM s) mod 2 = 0).
+  assert (G0 : MutexEvSched.g_guards (kM s) = 0) by (rewrite C4, Act, Zu, Zo, Zh; reflexivity).
+  pose proof (MutexEvInv.run_inv (sM s) nm) as (_ & (Wi & _) & _). rewrite <- HM in Wi.
+  assert (H0 : MutexEvInv.cntb MutexEvInv.holdpc (MutexEvSched.g_futs (kM s)) = 0).
+  { apply cntb_zero_M. intros f Hf. unfold MutexEvSched.quiescentb in QM. apply Bool.andb_true_iff in QM. destruct QM as (QF & _).
+    rewrite forallb_forall in QF. specialize (QF f Hf). unfold MutexEvSched.at_rest in QF. rewrite MutexEvInv.holdpc_eq. destruct (MutexEvSched.fpc f); try reflexivity; discriminate. }
+  assert (Ev : MutexEvSched.g_w (kM s) mod 2 = 0).
   { rewrite Wi, G0, H0. rewrite N.add_0_r, N.mul_comm. apply N.mod_mul. discriminate. }
-  unfold M.lostb in LM. rewrite Ev, QM in LM. cbn in LM. exact LM.
+  unfold MutexEvSched.lostb in LM. rewrite Ev, QM in LM. cbn in LM. exact LM.
 Qed.
 
 (* clause (b): nobody past the inner mutex (no write guard, no announced writer, no pending upgrade) and the reader side at
    rest ==> no read() waits *)
 Theorem rw3_readers nr nw nm sched : let s := xrun nr nw nm sched in
-  W.g_act (kW s) = false -> R.quiescentb (kR s) = true -> existsb R.parkedb (R.g_futs (kR s)) = false.
+  RwWriteEvSched.g_act (kW s) = false -> RwReadEvSched.quiescentb (kR s) = true -> existsb RwReadEvSched.parkedb (RwReadEvSched.g_futs (kR s)) = false.
 Proof.
   intros s Act QR. destruct (xrun_inv nr nw nm sched) as (_ & [C1 C2 C3 C4]). fold s in C1, C2, C3, C4.
   destruct (rw3_no_lost_wakeup nr nw nm sched) as (LR & _). fold s in LR.
-  assert (Wb : R.g_wb (kR s) = false) by (rewrite C1, <- C2; exact Act).
-  unfold R.lostb in LR. rewrite Wb, QR in LR. cbn in LR. exact LR.
+  assert (Wb : RwReadEvSched.g_wb (kR s) = false) by (rewrite C1, <- C2; exact Act).
+  unfold RwReadEvSched.lostb in LR. rewrite Wb, QR in LR. cbn in LR. exact LR.
 Qed.
 
 (* non-vacuity: a reader holds; a write() takes the inner mutex, announces itself and parks on no_readers; a read() parks on
@@ -384,10 +381,10 @@ Definition rw3_example_schedule : list xact :=
 Example rw3_example :
   let mid := xrun 2 1 2 (firstn 19 rw3_example_schedule) in
   let fin := xrun 2 1 2 rw3_example_schedule in
-  (k_rd mid = 1 /\ map R.fpc (R.g_futs (kR mid)) = [R.RDone; R.RParked] /\ map W.fpc (W.g_futs (kW mid)) = [W.WParked] /\
-   map M.fpc (M.g_futs (kM mid)) = [M.PDone; M.PParked] /\ M.g_w (kM mid) = 1 /\ R.g_wb (kR mid) = true) /\
+  (k_rd mid = 1 /\ map RwReadEvSched.fpc (RwReadEvSched.g_futs (kR mid)) = [RwReadEvSched.RDone; RwReadEvSched.RParked] /\ map RwWriteEvSched.fpc (RwWriteEvSched.g_futs (kW mid)) = [RwWriteEvSched.WParked] /\
+   map MutexEvSched.fpc (MutexEvSched.g_futs (kM mid)) = [MutexEvSched.PDone; MutexEvSched.PParked] /\ MutexEvSched.g_w (kM mid) = 1 /\ RwReadEvSched.g_wb (kR mid) = true) /\
   (k_rd fin = 0 /\ k_up fin = 0 /\ k_owe fin = 0 /\ k_hold fin = 0 /\
-   R.quiescentb (kR fin) = true /\ W.quiescentb (kW fin) = true /\ M.quiescentb (kM fin) = true /\
-   map R.fpc (R.g_futs (kR fin)) = [R.RDone; R.RDone] /\ map W.fpc (W.g_futs (kW fin)) = [W.WGone] /\
-   map M.fpc (M.g_futs (kM fin)) = [M.PDone; M.PDone] /\ M.g_w (kM fin) = 0).
+   RwReadEvSched.quiescentb (kR fin) = true /\ RwWriteEvSched.quiescentb (kW fin) = true /\ MutexEvSched.quiescentb (kM fin) = true /\
+   map RwReadEvSched.fpc (RwReadEvSched.g_futs (kR fin)) = [RwReadEvSched.RDone; RwReadEvSched.RDone] /\ map RwWriteEvSched.fpc (RwWriteEvSched.g_futs (kW fin)) = [RwWriteEvSched.WGone] /\
+   map MutexEvSched.fpc (MutexEvSched.g_futs (kM fin)) = [MutexEvSched.PDone; MutexEvSched.PDone] /\ MutexEvSched.g_w (kM fin) = 0).
 Proof. vm_compute. repeat split. Qed.
